@@ -235,3 +235,49 @@ func xerrMsg(fr *frame, st structure) string {
 	}
 	return msg
 }
+
+func init() {
+	register(map[string]externalFn{
+		"context.WithValue": func(fr *frame, a []value) value {
+			i := fr.i
+			parent := a[0].(iface)
+			if parent.t == nil {
+				panic(targetPanic{iface{types.Typ[types.String], "cannot create context from nil parent"}})
+			}
+			key := a[1].(iface)
+			if key.t == nil {
+				panic(targetPanic{iface{types.Typ[types.String], "nil key"}})
+			}
+			if !types.Comparable(key.t) {
+				panic(targetPanic{iface{types.Typ[types.String], "key is not comparable"}})
+			}
+			pkg := i.prog.ImportedPackage("context")
+			t := pkg.Type("valueCtx").Type()
+			cell := zero(t)
+			st := cell.(structure)
+			st[0], st[1], st[2] = parent, key, a[2]
+			return iface{t: types.NewPointer(t), v: &cell}
+		},
+		"sort.Slice":       sortSliceIntrinsic,
+		"sort.SliceStable": sortSliceIntrinsic,
+	})
+}
+
+func sortSliceIntrinsic(fr *frame, a []value) value {
+	i := fr.i
+	x, ok := a[0].(iface).v.([]value)
+	if !ok {
+		panic(unsupported("sort.Slice on a non-slice"))
+	}
+	less := a[1]
+	// insertion sort through the interpreted less function (stable; slices are small)
+	for p := 1; p < len(x); p++ {
+		for q := p; q > 0; q-- {
+			if !i.truth(i.call(fr, 0, less, []value{q, q - 1})) {
+				break
+			}
+			x[q], x[q-1] = x[q-1], x[q]
+		}
+	}
+	return nil
+}
